@@ -1,7 +1,7 @@
 (* Theorem A: every entry of the specification's (dis)satisfaction table, executed by the
    Script semantics on the encoded fragment, leaves exactly what the fragment's base type
    promises (for every stack below it and every alt stack).  For well-typed fragments. *)
-From Verif Require Import Exec Ser Ast Types TypeCheck SatSpec ExecLemmas Spec TypesSpec.
+From Verif Require Import Exec Ser Ast Types TypeCheck SatSpec ExecLemmas Spec TypesSpec ScriptNumProofs.
 From Coq Require Import Lia.
 
 (* ---------- induction principle for the nested AST ---------- *)
@@ -1101,18 +1101,26 @@ Section TheoremA.
   Qed.
 End TheoremA.
 
+(* the arithmetic hypotheses are theorems (ScriptNumProofs.v) *)
+Theorem theoremA_closed (e : env) (ke : keyenv) (A : assets) : assets_ok e ke A ->
+  forall (m : ms) (t : ty), type_of m = ROk t -> wf e ke m -> no_multi m ->
+    good e ke A m t /\ shape ke A m t.
+Proof.
+  intros HA. apply (theoremA e ke A); auto.
+  - intros z Hz. apply num_roundtrip; lia.
+  - intros z Hz. apply num_roundtrip; lia.
+  - apply num_truthy.
+  - intros v z. apply num_truthy_iff.
+Qed.
+
 (* a table satisfaction of a B-typed script is accepted as witness-script input *)
 Lemma witness_script_accepts (e : env) (ke : keyenv) (A : assets) :
-  (forall z, (0 <= z < 2147483648)%Z -> num_operand 4 (num_encode z) = Some z) /\
-  (forall z, (0 <= z < 2147483648)%Z -> num_operand 5 (num_encode z) = Some z) /\
-  (forall z, (0 < z < 2147483648)%Z -> truthy (num_encode z) = true) /\
-  (forall v z, num_operand 4 v = Some z -> truthy v = negb (z =? 0)%Z) ->
   assets_ok e ke A ->
   forall (m : ms) (t : ty), type_of m = ROk t -> c_base (t_corr t) = BB -> wf e ke m -> no_multi m ->
   forall w, In w (all_sat ke A m) -> accepts e (enc ke m) w = true.
 Proof.
-  intros [H1 [H2 [H3 H4]]] HA m t Ht Hb Hwf Hnm w Hin.
-  destruct (theoremA e ke A H1 H2 H3 H4 HA m t Ht Hwf Hnm) as [Hg _].
+  intros HA m t Ht Hb Hwf Hnm w Hin.
+  destruct (theoremA_closed e ke A HA m t Ht Hwf Hnm) as [Hg _].
   unfold good in Hg. rewrite Hb in Hg. destruct Hg as [Hs _].
   destruct (Hs w [] [] Hin) as [v [Hr [Htr _]]]. rewrite app_nil_r in Hr.
   unfold accepts. rewrite Hr. cbn. exact Htr.
